@@ -66,6 +66,10 @@ def _get_table(world, ref, results):
     return world.tables[ref]
 
 
+_FALSY = {'empty_str': str, 'zero': int, 'empty_list': list,
+          'false': bool, 'empty_dict': dict}
+
+
 def _bad_value(kind):
     if kind == 'list':
         return [[1, 'a']]
@@ -77,6 +81,8 @@ def _bad_value(kind):
         return 'table'
     if kind == 'int':
         return 7
+    if kind in _FALSY:
+        return _FALSY[kind]()
     raise ValueError(kind)
 
 
@@ -397,7 +403,13 @@ def judge_table_result(world, op, out, po, what):
             else:
                 p = None
             if p:
-                vs.append(V('duplicate', [p], '%s %s duplicate-%s-pair' %
+                props = [p]
+                if what == 'join' and measure == 'EDIT_DISTANCE' and \
+                        p != 'C03':
+                    # C03: "each key pair at most once", whatever the pair
+                    # stems from
+                    props.append('C03')
+                vs.append(V('duplicate', props, '%s %s duplicate-%s-pair' %
                             (p, comp, kind),
                             'pair %r occurs %d times' % (k, n), pair=list(k)))
     missing = [k for k in po.must() if k not in seen]
@@ -744,7 +756,18 @@ def check_state(world, call_ok, op, excused_flag=None):
                         not hasattr(vars(tok)[k], 'pattern'):
                     setattr(tok, k, v)
             tok.return_set = world.tok_cfg[name]['return_set']
-    from sim.world import filter_config
+    from sim.world import (filter_config, global_state, global_state_diff,
+                           restore_global_state)
+    gd = global_state_diff(world.gstate, global_state())
+    if gd:
+        # a setting every later call in this process depends on ("no call
+        # affects a later one"); put back so that the rest of the run, and the
+        # next run in this interpreter, are not disturbed
+        vs.append(V('process_state_untouched', ['C12'],
+                    'C12 %s process-wide-setting-changed' % comp,
+                    'process-wide settings changed by the call: %s' %
+                    '; '.join(gd[:4])))
+        restore_global_state(world.gstate)
     for name, f in world.filters.items():
         cfg = filter_config(f)
         if cfg != world.filter_cfg[name]:
@@ -915,6 +938,11 @@ def execute_case(case, collect_samples=False):
 def fresh_world(case, upto=0):
     """Fresh objects in the state the caller's objects are in before call
     number `upto` (the caller's own tokenizer reconfigurations replayed)."""
+    from sim.world import effective_tables
+    et = effective_tables(case, upto)
+    if et is not case['tables']:
+        case = dict(case)
+        case['tables'] = et
     w = World(case, install())
     w.apply_retunes(case['history'], upto)
     return w
@@ -966,6 +994,10 @@ def run_history_op(case, world, idx, op, results, rep, cpus):
     if kind == 'retune':
         world.retune(op['tok'], op['set'])
         rep['stats']['retunes'] += 1
+        return []
+    if kind == 'edit_table':
+        if world.edit_table(op):
+            rep['stats']['caller_table_edits:' + op.get('how', 'inplace')] += 1
         return []
     if kind == 'reject':
         from sim.reject import run_reject
